@@ -128,6 +128,7 @@ func mkRoleUpdates(from string, news []string) []Action {
 
 // enumRoleStates: phase 1. Authorised, valid role updates only.
 func enumRoleStates(r *Run, prop string, scn Scenario, U []Account, count bool) []*Node {
+	strict := prop == "C11" // the lifecycle itself is C11's subject; C10 only needs the set of role states
 	var states []*Node
 	var news []string
 	for _, a := range U {
@@ -157,7 +158,7 @@ func enumRoleStates(r *Run, prop string, scn Scenario, U []Account, count bool) 
 			m := pre.Model.(rolesModel)
 			msg, _ := a.Decode()
 			exp, next, _ := roleStep(m, msg)
-			if exp == MustSucceed && !o.OK {
+			if exp == MustSucceed && !o.OK && strict {
 				rp := scn.Replay("actions", post.Path)
 				rp.Expected, rp.Observed = "MUST_SUCCEED", o.Class()+" "+o.Err
 				r.Violate(prop+" authorised role change rejected: "+handlerName(a.Type),
@@ -166,13 +167,16 @@ func enumRoleStates(r *Run, prop string, scn Scenario, U []Account, count bool) 
 			if !o.OK {
 				return false
 			}
+			if !strict {
+				next = rolesOfView(ViewOf(w)) // follow the implementation
+			}
 			post.Model, post.MKey = next, next.key()
 			return true
 		},
 		State: func(r *Run, n *Node, w *World) {
 			m := n.Model.(rolesModel)
 			got := rolesOfView(ViewOf(w))
-			if got != m {
+			if got != m && strict {
 				r.Violate(prop+" roles differ from lifecycle model",
 					fmt.Sprintf("after %v: implementation %s, model %s", descs(n.Path), got.key(), m.key()), scn.Replay("actions", n.Path))
 			}
@@ -238,7 +242,11 @@ func rolesJobs(prop, tier string, phase2 func(r *Run, scn Scenario, U []Account,
 				r.Bounds["role_states"] = len(states)
 				r.Bounds["role_states_expected"] = want
 				if len(states) != want {
-					r.HarnessError("expected %d role states, enumerated %d", want, len(states))
+					if prop == "C11" {
+						r.HarnessError("expected %d role states, enumerated %d", want, len(states))
+					} else {
+						r.Truncate(fmt.Sprintf("only %d of %d role states are reachable on this tree (the lifecycle is C11's subject)", len(states), want))
+					}
 				}
 			}
 			known := map[string]bool{}
